@@ -101,6 +101,8 @@ fn sample_states() -> Vec<HashMap<u64, f64>> {
     v.push(ids.iter().map(|&i| (i, if i % 2 == 0 { -2.0 } else { 0.25 })).collect());
     // one id missing at a time
     for miss in ids { v.push(ids.iter().filter(|&&i| i != miss).map(|&i| (i, 1.0 + i as f64)).collect()); }
+    // one id missing while every other value is zero (a product with a zero factor must still notice the missing variable)
+    for miss in ids { v.push(ids.iter().filter(|&&i| i != miss).map(|&i| (i, if i % 2 == 0 { 0.0 } else { -0.0 })).collect()); }
     v
 }
 
@@ -394,6 +396,30 @@ pub fn c08() -> Outcome {
         if v.is_err() != *vfail { return Outcome { cases: n, distinct: d.len(), fail: Some(format!("Instance::validate on '{name}': ok={}, expected ok={}", v.is_ok(), !vfail)) }; }
         let t = ommx::Instance::try_from(i.clone());
         if t.is_err() != *tfail { return Outcome { cases: n, distinct: d.len(), fail: Some(format!("TryFrom<v1::Instance> on '{name}': ok={}, expected ok={}{}", t.is_ok(), !tfail, t.err().map(|e| format!(" ({e})")).unwrap_or_default())) }; }
+    }
+    // parametric instances: decision-variable and parameter ids jointly unique and covering every id used by the objective and active constraints
+    {
+        let pvalid = || { let mut p: v1::ParametricInstance = valid().into(); p.constraint_hints = None;
+            p.parameters = [20u64, 21, 22].iter().map(|&i| { let mut q = v1::Parameter::default(); q.id = i; q }).collect();
+            p.objective = Some(f_of(F::Quadratic(quad(&[(1, 20, 1.0)], Some(lin(&[(3, 2.0), (21, 1.0)], 0.0)))))); p };
+        type PM = (&'static str, Box<dyn Fn(&mut v1::ParametricInstance)>, bool);
+        let pm: Vec<PM> = vec![
+            ("valid parametric instance", Box::new(|_| {}), false),
+            ("parameter id equals a decision-variable id", Box::new(|p| p.parameters[2].id = 2), true),
+            ("duplicate parameter id", Box::new(|p| p.parameters[2].id = 20), true),
+            ("duplicate decision-variable id", Box::new(|p| p.decision_variables[2].id = 1), true),
+            ("undefined id in the objective", Box::new(|p| p.objective = Some(f_of(F::Linear(lin(&[(77, 1.0)], 0.0))))), true),
+            ("undefined id in an active constraint", Box::new(|p| p.constraints[0].function = Some(f_of(F::Linear(lin(&[(1, 1.0), (78, 1.0)], 0.0))))), true),
+            ("duplicate constraint id", Box::new(|p| p.constraints[1].id = 10), true),
+            ("duplicate constraint id active/removed", Box::new(|p| p.removed_constraints[0].constraint.as_mut().unwrap().id = 10), true),
+            ("id defined only as a parameter", Box::new(|p| p.constraints[1].function = Some(f_of(F::Linear(lin(&[(20, 1.0)], 0.0))))), false),
+        ];
+        for (k, (name, m, vfail)) in pm.iter().enumerate() {
+            n += 1; d.insert(100 + k);
+            let mut p = pvalid(); m(&mut p);
+            let v = p.validate();
+            if v.is_err() != *vfail { return Outcome { cases: n, distinct: d.len(), fail: Some(format!("ParametricInstance::validate on '{name}': ok={}, expected ok={}{}", v.is_ok(), !vfail, v.err().map(|e| format!(" ({e})")).unwrap_or_default())) }; }
+        }
     }
     // typed view of unset bounds
     {
